@@ -423,6 +423,62 @@ def replay_prefix(old, calls, n, stale=None, name="wallet.json"):
     return files
 
 
+def receive_script_under_crash(ctx, res):
+    """the hand-out as the user sees it: the node's own `skepticoin-receive` script on a small wallet, with the process dying
+    inside the save (at the rename, in the middle of the write) — an address that was shown must not be shown again by the next
+    run while unused keys remain, i.e. nothing may be shown before the hand-out is on disk (monitors only)"""
+    rng = ctx.rng
+    runner = ("import sys, os\n"
+              "sys.path.insert(0, %r)\n"
+              "mode = sys.argv[1]\n"
+              "import skepticoin.wallet as W\n"
+              "import skepticoin.scripts.receive as R\n"
+              "if mode == 'at_rename':\n"
+              "    def boom(a, b):\n"
+              "        sys.stdout.flush(); os._exit(9)\n"
+              "    os.replace = boom\n"
+              "    os.rename = boom\n"
+              "elif mode == 'mid_write':\n"
+              "    real_dump = W.Wallet.dump\n"
+              "    def half(self, f):\n"
+              "        import io\n"
+              "        b = io.StringIO(); real_dump(self, b); f.write(b.getvalue()[:len(b.getvalue()) // 2]); f.flush()\n"
+              "        sys.stdout.flush(); os._exit(9)\n"
+              "    W.Wallet.dump = half\n"
+              "sys.argv = ['skepticoin-receive', 'note ' + mode]\n"
+              "R.main()\n" % kit.REPO)
+    for mode in ("at_rename", "mid_write"):
+        d = tempfile.mkdtemp(prefix="skv-receive-")
+        try:
+            keys = chain.Keys(rng, 4)
+            w = Wallet.empty()
+            for i in range(4):
+                w.keypairs[keys.pks[i]] = keys.sks[i].to_string()
+                w.unused_public_keys.append(keys.pks[i])
+            with open(os.path.join(d, "wallet.json"), "w") as f:
+                w.dump(f)
+            with open(os.path.join(d, "run.py"), "w") as f:
+                f.write(runner)
+            shown = []
+            for m_ in (mode, "none", "none"):
+                p = subprocess.run([sys.executable, "run.py", m_], cwd=d, stdout=subprocess.PIPE, stderr=subprocess.PIPE,
+                                   env={**os.environ, "PYTHONDONTWRITEBYTECODE": "1"}, timeout=120)
+                addr = re.findall(r"SKE[0-9a-f]+PTI", p.stdout.decode(errors="replace"))
+                shown.append((m_, p.returncode, addr))
+            res.case(("receive-crash", mode), nontrivial=True)
+            res.count("receive_script_crash:" + mode)
+            all_shown = [a for _, _, addrs in shown for a in addrs]
+            if len(all_shown) != len(set(all_shown)):
+                res.violations.append({"kind": "the receive script showed the same address twice although unused keys remain: a run that "
+                                               "died inside the save (%s) had already shown it, the next run shows it again"
+                                               % mode, "runs": [(m_, rc, a) for m_, rc, a in shown]})
+            if shown[1][1] != 0 or not shown[1][2]:
+                res.violations.append({"kind": "after a run of the receive script that died inside the save (%s) the next run does not "
+                                               "hand out an address" % mode, "runs": [(m_, rc, a) for m_, rc, a in shown]})
+        finally:
+            shutil.rmtree(d, ignore_errors=True)
+
+
 def run_c15(ctx):
     res = kit.Result()
     rng = ctx.rng
@@ -638,6 +694,7 @@ def run_c15(ctx):
                                                    "complete new wallet (%s)" % (n, loaded[:80] if loaded not in (old, new) else "file"),
                                            "calls": [c[:2] for c in calls][:8]})
         res.sample({"save_wallet_system_calls": [c[:2] if c[0] != "write" else ("write", c[1], len(c[2])) for c in calls][:6]})
+    receive_script_under_crash(ctx, res)
     model = ctx.driver.ask(ops)
     kit.compare(res, ops, impl, model)
     res.rule = ("sequences of 25-60 operations on real Wallet objects (1-6 keys): hand-outs (with random.choice controlled), "
